@@ -67,7 +67,11 @@ def _bin(check, repo, mod) -> None:
     for n in walk_no_nested_defs(fn):
         if isinstance(n, ast.For) and any(isinstance(x, ast.Assign) and unparse(x.targets[0]).startswith("new_sampling[") for x in n.body):
             loop = n
-    if loop is None or not isinstance(loop.target, ast.Tuple):
+    if loop is None:
+        _bin_vector_calibration(check, mod, fn)
+        _bin_rest(check, repo, mod, fn)
+        return
+    if not isinstance(loop.target, ast.Tuple):
         raise AnalysisError("Dataset.bin: calibration loop not found")
     ax, fac = loop.target.elts[0].id, loop.target.elts[1].id
     itr = unparse(loop.iter)
@@ -91,6 +95,94 @@ def _bin(check, repo, mod) -> None:
         ok = len(d) == 1 and unparse(d[0]).startswith(src)
         check.decide(ok, "C06-R1", f"Dataset.bin: {v} starts from {src}", "", mod.line(fn),
                      fail_detail=f"{v} is not initialised from {src}")
+    _bin_rest(check, repo, mod, fn)
+
+
+def _seq_order(fn, e: ast.AST, depth: int = 0):
+    """Order class of a sequence of axes / factors in Dataset.bin:  'pair' = the caller's (axis, factor) order (axes, bin_factors, and the
+    keys/values/items of dict(zip(axes, bin_factors))), 'ascending' = increasing axis number, ('of', X) = element-wise image of sequence X; None = unknown."""
+    if depth > 6:
+        return None
+    maps = {}  # mapping name → (keys source, values source)
+    for n in walk_no_nested_defs(fn):
+        if isinstance(n, ast.Assign) and isinstance(n.targets[0], ast.Name) and isinstance(n.value, ast.Call) and call_name(n.value) == "dict" and len(n.value.args) == 1 \
+                and isinstance(n.value.args[0], ast.Call) and call_name(n.value.args[0]) == "zip" and len(n.value.args[0].args) == 2:
+            maps[n.targets[0].id] = (unparse(n.value.args[0].args[0]), unparse(n.value.args[0].args[1]))
+    t = unparse(e)
+    for m, (k, v) in maps.items():
+        if t in (k, v, f"{m}.keys()", f"{m}.values()", f"{m}.items()", f"list({m})", f"tuple({m})", f"list({m}.keys())", f"list({m}.values())", f"tuple({m}.keys())", f"tuple({m}.values())"):
+            return "pair"
+    if isinstance(e, ast.Call):
+        cn = call_name(e) or ""
+        if cn in ("np.asarray", "np.array", "list", "tuple", "np.fromiter", "np.atleast_1d") and e.args:
+            return _seq_order(fn, e.args[0], depth + 1)
+        if cn == "sorted":
+            return "ascending"
+        if isinstance(e.func, ast.Attribute) and e.func.attr in ("astype", "copy", "tolist"):
+            return _seq_order(fn, e.func.value, depth + 1)
+    if isinstance(e, (ast.ListComp, ast.GeneratorExp)) and len(e.generators) == 1:
+        g = e.generators[0]
+        if isinstance(g.iter, ast.Call) and call_name(g.iter) == "range":
+            return "ascending" if isinstance(e.elt, ast.Name) and isinstance(g.target, ast.Name) and e.elt.id == g.target.id else ("of", "ascending")
+        inner = _seq_order(fn, g.iter, depth + 1)
+        if g.ifs:
+            return None if inner is None else inner  # a filtered sub-sequence keeps the order of its source
+        return inner
+    if isinstance(e, ast.Name):
+        dd = [d for d in definitions(fn, e.id) if isinstance(d, ast.AST)]
+        if len(dd) == 1:
+            return _seq_order(fn, dd[0], depth + 1)
+    return None
+
+
+def _bin_vector_calibration(check, mod, fn) -> None:
+    """Vectorised form of the calibration update: `new_origin[A] += ½(F − 1)·new_sampling[A]; new_sampling[A] *= F`."""
+    vecs = {}
+    for v, src in (("S", "self.sampling"), ("O", "self.origin")):
+        for n in walk_no_nested_defs(fn):
+            if isinstance(n, ast.Assign) and isinstance(n.targets[0], ast.Name) and unparse(n.value).startswith(src):
+                vecs[n.targets[0].id] = v
+    if sorted(vecs.values()) != ["O", "S"]:
+        raise AnalysisError("Dataset.bin: calibration vectors (copies of self.sampling / self.origin) not found")
+    sts = [n for n in walk_no_nested_defs(fn) if isinstance(n, (ast.Assign, ast.AugAssign)) and isinstance(n.targets[0] if isinstance(n, ast.Assign) else n.target, ast.Subscript)
+           and unparse((n.targets[0] if isinstance(n, ast.Assign) else n.target).value) in vecs]
+    if not sts:
+        raise AnalysisError("Dataset.bin: calibration loop not found")
+    idx = {unparse((n.targets[0] if isinstance(n, ast.Assign) else n.target).slice) for n in sts}
+    if len(idx) != 1:
+        raise AnalysisError(f"Dataset.bin: calibration updates use different index vectors {sorted(idx)}")
+    ivec = next(iter(idx))
+    inode = (sts[0].targets[0] if isinstance(sts[0], ast.Assign) else sts[0].target).slice
+    others = set()
+    for n in sts:
+        for x in ast.walk(n.value):
+            if isinstance(x, ast.Name) and x.id not in vecs and x.id != ivec and not x.id.startswith("np"):
+                others.add(x.id)
+    if len(others) != 1:
+        raise AnalysisError(f"Dataset.bin: factor vector of the vectorised calibration update not identified ({sorted(others)})")
+    fvec = next(iter(others))
+    oi, of = _seq_order(fn, inode), _seq_order(fn, ast.Name(id=fvec, ctx=ast.Load()))
+    if oi is None or of is None:
+        raise AnalysisError(f"Dataset.bin: order of `{ivec}` / `{fvec}` not derivable")
+    check.decide(oi == of, "C06-R1", "Dataset.bin: the axis vector and the factor vector of the calibration update are paired in the same order", f"{ivec}: {oi}, {fvec}: {of}",
+                 mod.line(sts[0]), fail_detail=f"`{ivec}` is in {oi} order but `{fvec}` in {of} order: for axes given in non-ascending order the sampling multiplier and the origin shift land on the "
+                                               f"wrong axes — extent and block-centre coordinates are no longer preserved")
+    names = {v: k for k, v in vecs.items()}
+    body = [_rename(n, {fvec: "F"}) for n in sts]
+    S, O, F = Rat.sym("S"), Rat.sym("O"), Rat.sym("F")
+    try:
+        env = _sym_exec(body, {f"{names['S']}[{ivec}]": S, f"{names['O']}[{ivec}]": O, "F": F})
+    except NotArithmetic as exc:
+        raise AnalysisError(f"Dataset.bin: calibration statement not arithmetic: {exc}")
+    ns, no = env.get(f"{names['S']}[{ivec}]"), env.get(f"{names['O']}[{ivec}]")
+    check.decide(ns is not None and ns.equals(S * F), "C06-R1", "Dataset.bin: new_sampling = factor · sampling", str(ns), mod.line(sts[0]),
+                 fail_detail=f"new_sampling[axes] evaluates to {ns}, the law is F·S")
+    want = O + S * (F - Rat.const(1)) / Rat.const(2)
+    check.decide(no is not None and no.equals(want), "C06-R1", "Dataset.bin: new_origin = origin + sampling·(factor−1)/2 (mean coordinate of the first block)",
+                 str(no), mod.line(sts[0]), fail_detail=f"new_origin[axes] evaluates to {no}, the law is O + S·(F−1)/2")
+
+
+def _bin_rest(check, repo, mod, fn) -> None:
     # ---- R2 reduction structure
     txt = unparse(fn)
     le = [x for x in definitions(fn, "length_eff") if isinstance(x, ast.AST)]
@@ -263,13 +355,34 @@ def _resample(check, repo, mod) -> None:
                  fail_detail="the equal-length arm does not append slice(None) and (0, 0)")
     # rescale
     sc = [x for x in ast.walk(fn) if isinstance(x, ast.AugAssign) and dotted(x.target) == "array_resampled"]
-    ok = len(sc) == 1 and isinstance(sc[0].op, ast.Mult) and unparse(sc[0].value) == "N_out / N_in"
-    nin = [x for x in definitions(fn, "N_in") if isinstance(x, ast.AST)]
-    nout = [x for x in definitions(fn, "N_out") if isinstance(x, ast.AST)]
-    ok = ok and len(nin) == 1 and "self.shape[" in unparse(nin[0]) and "np.prod" in unparse(nin[0]) and "for" in unparse(nin[0]) \
-        and len(nout) == 1 and "axis_to_outlen[" in unparse(nout[0]) and "np.prod" in unparse(nout[0])
-    check.decide(ok, "C06-R3", "Dataset.fourier_resample: rescale by N_out/N_in (mean preserved under the default FFT normalisation)", "", mod.line(fn),
-                 fail_detail="the result is not multiplied by prod(output lengths)/prod(input lengths) over the resampled axes")
+    def inl(e, depth=0):
+        """text of e with single-definition locals substituted"""
+        class T(ast.NodeTransformer):
+            def visit_Subscript(self, n):
+                if not isinstance(n.value, ast.Name):  # a subscripted name is a table (axis → length): keep its name
+                    n.value = self.visit(n.value)
+                n.slice = self.visit(n.slice)
+                return n
+
+            def visit_Name(self, n):
+                if depth < 4:
+                    dd = [d for d in definitions(fn, n.id) if isinstance(d, ast.AST)]
+                    if len(dd) == 1 and not isinstance(dd[0], (ast.Dict, ast.List)):
+                        return ast.parse(inl(dd[0], depth + 1), mode="eval").body
+                return n
+        return unparse(T().visit(ast.parse(unparse(e), mode="eval").body))
+    ok, got = False, "?"
+    if len(sc) == 1 and isinstance(sc[0].op, ast.Mult):
+        got = inl(sc[0].value)
+        q = ast.parse(got, mode="eval").body
+        while isinstance(q, ast.Call) and (call_name(q) or "") in ("float", "int") and len(q.args) == 1:
+            q = q.args[0]
+        if isinstance(q, ast.BinOp) and isinstance(q.op, ast.Div):
+            num, den = unparse(q.left), unparse(q.right)
+            ok = "np.prod" in num and "axis_to_outlen[" in num and "np.prod" in den and "self.shape[" in den and "axis_to_outlen" not in den and "self.shape" not in num
+    check.decide(ok, "C06-R3", "Dataset.fourier_resample: rescale by N_out/N_in with the REALISED lengths (mean preserved under the default FFT normalisation)", got[:90], mod.line(sc[0] if sc else fn),
+                 fail_detail=f"the result is multiplied by `{got[:110]}`, not by prod(realised output lengths)/prod(input lengths) over the resampled axes: requested factors differ from the "
+                             f"realised ratio whenever shape·factor is not an integer, and the mean is off by that ratio")
     # linearity inventory of the data path self.array → array_resampled
     path_names = {"F", "F_rs", "array_resampled"}
     nonlinear = []
